@@ -22,6 +22,14 @@
 (* in their original order (an unstable or partial reordering only shows      *)
 (* beyond ~20 children).                                                      *)
 (*                                                                            *)
+(* Mode "lists": units whose entries reference two or three distinct range   *)
+(* lists and location lists in insertion order, drawn from a pool (a list     *)
+(* with a base address entry + offset pair, start/end, start/length, offset   *)
+(* pair only, an empty range, a default location), root without / with zero / *)
+(* with non-zero DW_AT_low_pc, DWARF 2-5.  The per-list state of the writers  *)
+(* (have_base_address) must not leak between lists; expected outcome and list *)
+(* meanings come from ListWriter.tla (C16's model).                           *)
+(*                                                                            *)
 (* Every final state: the spec's size table is checked against its emit table *)
 (* (Size = Len(Emit)), the layout is checked for self-consistency, and one    *)
 (* replay case is emitted with the expected read-back or the expected error.  *)
@@ -197,6 +205,45 @@ WideNext ==
              be |-> (n + Cardinality(bases) + Salt) % 3 = 0, probe |-> "wide"]
 
 -----------------------------------------------------------------------------
+(* Mode "lists" *)
+RPool == [A |-> <<LW!Ent("base", N(8192), Zero(8), <<>>), LW!Ent("opair", N(16), N(32), <<>>)>>,
+          B |-> <<LW!Ent("se", N(256), N(512), <<>>)>>,
+          C |-> <<LW!Ent("slen", N(768), N(64), <<>>)>>,
+          D |-> <<LW!Ent("opair", N(16), N(32), <<>>)>>,
+          E |-> <<LW!Ent("se", N(256), N(256), <<>>)>>,
+          F |-> <<LW!Ent("se", N(4096), N(4100), <<>>), LW!Ent("slen", N(5000), N(7), <<>>)>>]
+WithExpr(L, x) == [i \in DOMAIN L |-> IF L[i].k = "base" THEN L[i] ELSE [L[i] EXCEPT !.d = <<80 + x + i>>]]
+LPool == [A |-> WithExpr(RPool.A, 0), B |-> WithExpr(RPool.B, 2), C |-> WithExpr(RPool.C, 4), D |-> WithExpr(RPool.D, 6),
+          E |-> WithExpr(RPool.E, 8), F |-> <<LW!Ent("defloc", Zero(8), Zero(8), <<95>>), LW!Ent("se", N(256), N(512), <<94>>)>>]
+ListSeqs == {<<x, y>> : x \in {"A", "B", "C", "D", "E", "F"}, y \in {"A", "B", "C", "D", "E", "F"}}
+            \cup {<<x, y, z>> : x \in {"A", "B"}, y \in {"A", "B", "C", "D"}, z \in {"B", "C", "D"}}
+LowPcs == <<<<>>, <<N(0)>>, <<N(4096)>>>>
+RECURSIVE ListCalls(_, _, _)
+(* child i + 1 of unit 1 references range list rs[i] and location list ls[i] *)
+ListCalls(rs, ls, i) ==
+    IF i > Len(rs) THEN <<>>
+    ELSE <<AddCall(1, 1, "DW_TAG_subprogram"),
+           SetCall(1, i + 1, "DW_AT_ranges", [k |-> "RangeListRef", list |-> RPool[rs[i]]]),
+           SetCall(1, i + 1, "DW_AT_frame_base", [k |-> "LocationListRef", list |-> LPool[ls[i]]])>> \o ListCalls(rs, ls, i + 1)
+ListsFan == /\ c.stage = 0 /\ "v" \notin DOMAIN c
+            /\ \E v \in {2, 3, 4, 5} : \E lp \in 1..3 : c' = [stage |-> 0, v |-> v, lp |-> lp]
+ListsNext ==
+    /\ c.stage = 0 /\ "v" \in DOMAIN c
+    /\ \E rs \in ListSeqs :
+         (* the location lists follow the same pattern, rotated so that the two tables differ *)
+         LET ls == IF (Len(rs) + c.v + Salt) % 2 = 0 THEN rs ELSE [i \in DOMAIN rs |-> rs[Len(rs) + 1 - i]]
+             w == IF (c.v + c.lp + Salt) % 2 = 0 THEN 4 ELSE 8
+             a == IF (c.v + Len(rs) + Salt) % 3 = 0 THEN 4 ELSE 8 IN
+         c' = [stage |-> 1, encs |-> <<Enc(c.v, w, a), Enc(c.v, w, a)>>,
+               calls |-> (IF LowPcs[c.lp] = <<>> THEN <<>>
+                          ELSE <<SetCall(1, 1, "DW_AT_low_pc", V("Address", LowPcs[c.lp][1]))>>)
+                         \o ListCalls(rs, ls, 1)
+                         \o <<AddCall(2, 1, "DW_TAG_subprogram"),
+                              SetCall(2, 2, "DW_AT_ranges", [k |-> "RangeListRef", list |-> RPool.B]),
+                              SetCall(2, 2, "DW_AT_frame_base", [k |-> "LocationListRef", list |-> LPool.C])>>,
+               be |-> (c.v + c.lp + Len(rs) + Salt) % 4 = 0, probe |-> "lists"]
+
+-----------------------------------------------------------------------------
 (* Mode "builder": c = [stage, encs, calls, ns (structure calls), nm (modifier calls), last] *)
 BEncs == LET v == <<4, 5, 2, 3>>[(Salt % 4) + 1]  w == IF Salt % 2 = 0 THEN 4 ELSE 8 IN
          <<Enc(v, w, 8), Enc(<<5, 3, 4, 2>>[(Salt % 4) + 1], 12 - w, 4)>>
@@ -250,10 +297,11 @@ SetUnits == /\ c.stage = 0 /\ c.phase = "S" /\ c.ns = 0 /\ c.nu < MaxUnits
             /\ c' = [c EXCEPT !.nu = @ + 1]
 
 Init == c = IF Mode = "kinds" THEN [stage |-> -1]
-            ELSE IF Mode = "wide" THEN [stage |-> 0]
+            ELSE IF Mode \in {"wide", "lists"} THEN [stage |-> 0]
             ELSE [stage |-> 0, phase |-> "S", calls |-> <<>>, ns |-> 0, nm |-> 0, nu |-> 1]
 Next == IF Mode = "kinds" THEN KindsFan \/ KindsNext \/ BadNext \/ Bad3Next
         ELSE IF Mode = "wide" THEN WideFan \/ WideNext
+        ELSE IF Mode = "lists" THEN ListsFan \/ ListsNext
         ELSE StructNext \/ ToMods \/ ModNext \/ BuilderFinish \/ SetUnits
 
 -----------------------------------------------------------------------------
@@ -282,11 +330,18 @@ RECURSIVE HashCalls(_, _, _)
 HashCalls(calls, i, h) == IF i > Len(calls) THEN h ELSE HashCalls(calls, i + 1, (h * 31 + CallCode(calls[i])) % 9973)
 Emit1(s) == HashCalls(s.calls, 1, Salt) % EmitMod = 0
 
-Inv == (c.stage = 1 /\ (Mode \in {"kinds", "wide"} \/ Emit1(c))) =>
+(* a list the property says cannot be encoded makes the modelled write fail *)
+ListsLemma(D, res, be) ==
+    \A u \in DOMAIN D.units :
+        LET U == D.units[u]  lenc == LEnc(U.enc, be) IN
+        (\E i \in DOMAIN U.rt : LW!MustReject(U.rt[i], lenc, Lp(U))) \/ (\E i \in DOMAIN U.lt : LW!MustReject(U.lt[i], lenc, Lp(U)))
+        => ~res.ok
+Inv == (c.stage = 1 /\ (Mode \in {"kinds", "wide", "lists"} \/ Emit1(c))) =>
        LET D == Normalise(Apply(Start(c.encs), c.calls, 1))
            res == WriteResult(D, c.be) IN
        /\ SizeLemma(D)
        /\ LayoutLemma(D, res)
+       /\ ListsLemma(D, res, c.be)
        /\ PrintT(<<"CASE", ToJson([sys |-> "unitw", be |-> c.be, probe |-> c.probe,
                                    units |-> [u \in DOMAIN c.encs |-> [version |-> c.encs[u].version, format |-> c.encs[u].word,
                                                                       asz |-> c.encs[u].asz]],
